@@ -105,7 +105,7 @@ func (bl *blank) pieces(e ast.Expr, out *[]piece) {
 			return
 		}
 	case *ast.CallExpr:
-		if core.IsCallTo(bl.info, x, "fmt.Sprintf") && len(x.Args) >= 1 {
+		if (core.IsCallTo(bl.info, x, "fmt.Sprintf") || core.IsCallTo(bl.info, x, "fmt.Fprintf")) && len(x.Args) >= 1 {
 			if f, ok := core.ConstString(bl.info, x.Args[0]); ok {
 				// verbs are non-empty content in the middle of a line
 				parts := strings.Split(f, "%")
@@ -252,6 +252,16 @@ func (bl *blank) scan(body *ast.BlockStmt, builder types.Object, init byte) ([]b
 					}
 					var ps []piece
 					switch {
+					case core.IsCallTo(bl.info, c, "fmt.Fprintf") && len(c.Args) >= 2 && mentionsObj(bl.info, c.Args[0], builder):
+						// fmt.Fprintf(&b, f, a...) writes what b.WriteString(fmt.Sprintf(f, a...)) writes
+						bl.pieces(&ast.CallExpr{Fun: c.Fun, Args: c.Args[1:]}, &ps)
+					case core.IsCallTo(bl.info, c, "fmt.Fprint", "fmt.Fprintln") && len(c.Args) >= 1 && mentionsObj(bl.info, c.Args[0], builder):
+						for _, a := range c.Args[1:] {
+							bl.pieces(a, &ps)
+						}
+						if core.IsCallTo(bl.info, c, "fmt.Fprintln") {
+							ps = append(ps, piece{konst: true, s: "\n"})
+						}
 					case core.ObjOf(bl.info, sel.X) == builder && (sel.Sel.Name == "WriteString" || sel.Sel.Name == "WriteByte" || sel.Sel.Name == "WriteRune" || sel.Sel.Name == "Write") && len(c.Args) == 1:
 						bl.pieces(c.Args[0], &ps)
 					case sel.Sel.Name == "WriteTo" && len(c.Args) == 1 && mentionsObj(bl.info, c.Args[0], builder):
